@@ -166,6 +166,17 @@ def run(chk):
     for name, v in STD_BINDS:
         add("dyn(x) == x || type(x) == double", [("x", v)], "OK b1" if name not in ("m1", "m0", "l0") else None)
         add("type(dyn(x)) == type(x)", [("x", v)], "OK b1")
+    # every constructor on every kind of value: whatever it accepts, the result has the constructor's type (and the value
+    # the model computes: tie); for the two booleans the integer forms are spelled out
+    for T in ["int", "uint", "double", "string", "bytes", "bool", "timestamp", "duration"]:
+        for name, v in STD_BINDS + [("bt", vb(True)), ("bf", vb(False))]:
+            add("type(%s(x)) == %s" % (T, T), [("x", v)], "B1ORERR", "result type of %s on %s" % (T, name))
+            if not (T == "timestamp" and v == VNULL):       # timestamp(null) reads the clock (null padding of the dispatcher)
+                add("[%s(x)]" % T, [("x", v)], None)
+    for b, n_ in ((True, 1), (False, 0)):
+        add("int(x)", [("x", vb(b))], "OK " + vi(n_))
+        add("uint(x)", [("x", vb(b))], "OK " + vu(n_))
+        add("[uint(x) - 1u, -uint(x)]", [("x", vb(b))], None)
     n_misc = len(cases)
     # ---- f-strings ---------------------------------------------------------------------------------
     fvals = [("i1", vi(5), "5"), ("i2", vi(-3), "-3"), ("u1", vu(7), "7"), ("s1", vs("hé{}"), "hé{}"), ("s0", vs(""), ""),
@@ -255,6 +266,11 @@ def run(chk):
             if not ok:
                 chk.violation("string(double) does not print the shortest decimal that reads back as the same double",
                               dict(case=c, label=lab, impl=r, bits="%016x" % b))
+            continue
+        if w == "B1ORERR":
+            if not (k == "ERR" or (k, payload) == ("OK", "b1")):
+                chk.violation("a conversion that succeeds does not return a value of the type converted to",
+                              dict(case=c, label=lab, impl=r, expected="true, or a failure"))
             continue
         if ("%s %s" % (k, payload)).strip() != w:
             chk.violation("a conversion is not exact on its domain or does not reject a value outside it",
